@@ -507,6 +507,9 @@ func (n *RaftNode) leaderId() (string, error) {
 
 // applies a command into the Raft.
 func (n *RaftNode) propose(cmd *command) (interface{}, error) {
+	if r, err, ok := simPropose(n, cmd); ok {
+		return r, err
+	}
 	future := n.raft.Apply(cmd.data, n.applyTimeout)
 	if err := future.Error(); err != nil {
 		return nil, err
